@@ -641,6 +641,9 @@ fn cram_roundtrip(tier: &str) -> Result<String, String> {
     push(&mut small, "q.after", 0, "sq0", 730, 30, "20M", "*", 0, 0, &rbases(0, 730, 20), "");
     small.push("noq.2\t4\t*\t0\t0\t*\t*\t0\t0\tACGTNACGTN\t*\n".to_string());
     push(&mut small, "q.last", 4, "*", 0, 0, "*", "*", 0, 0, "GATTACAGATTACA", "");
+    // a pair whose FIRST record in the file is the RIGHTMOST one (an unsorted / collated stream): the leftmost mate has the positive template length
+    push(&mut small, "o.pair", 83, "sq0", 900, 40, "20M", "=", 800, -120, &rbases(0, 900, 20), "");
+    push(&mut small, "o.pair", 163, "sq0", 800, 40, "20M", "=", 900, 120, &rbases(0, 800, 20), "");
     // ---- a large single-reference-per-slice set: 10240 on sq0, 10240 on sq1, unmapped tail ----
     let mut big: Vec<String> = Vec::new();
     let nbig = 10240usize;
